@@ -62,6 +62,7 @@ void snoopy_message_generateFromFormat (
 ) {
     size_t dataSourceMsgBufSize;
     char * dataSourceMsg = NULL;
+    char * dataSourceTag = NULL;
 
     char const * fmtPos_cur;
     char const * fmtPos_nextFormatTag;
@@ -70,6 +71,7 @@ void snoopy_message_generateFromFormat (
 
     dataSourceMsgBufSize = dataSourceMsgMaxLength+1;
     dataSourceMsg = malloc(dataSourceMsgBufSize);
+    dataSourceTag = malloc(strlen(logMessageFormat) + 1);   // A data source tag is never longer than the format containing it
 
     fmtPos_cur           = logMessageFormat;
     fmtPos_nextFormatTag = logMessageFormat;
@@ -77,7 +79,6 @@ void snoopy_message_generateFromFormat (
     // Loop all the way to the end of log message format specification
     while (strlen(fmtPos_nextFormatTag) > 0) {
         size_t lengthToCopy;
-        char  dataSourceTag[100];
         int   dataSourceTagLength;
         char *fmtPos_dataSourceTagArg;
         const char *dataSourceNamePtr;
@@ -89,6 +90,7 @@ void snoopy_message_generateFromFormat (
         if (NULL == fmtPos_nextFormatTag) {
             snoopy_message_append(logMessage, logMessageBufSize, fmtPos_cur);
             free(dataSourceMsg);
+            free(dataSourceTag);
             return; // Should be "break;" but SonarCloud is complaining about it
         }
 
@@ -107,6 +109,7 @@ void snoopy_message_generateFromFormat (
         if (NULL == fmtPos_nextFormatTagClose) {
             snoopy_message_append(logMessage, logMessageBufSize, "[ERROR: Closing data source tag ('}') not found.]");
             free(dataSourceMsg);
+            free(dataSourceTag);
             return; // Should be "break;" but SonarCloud is complaining about it
         }
         dataSourceTag[0]    = '\0';
@@ -133,6 +136,7 @@ void snoopy_message_generateFromFormat (
             snoopy_message_append(logMessage, logMessageBufSize, dataSourceNamePtr);
             snoopy_message_append(logMessage, logMessageBufSize, "' not found.]");
             free(dataSourceMsg);
+            free(dataSourceTag);
             return; // Should be "break;" but SonarCloud is complaining about it
         }
 
@@ -154,6 +158,7 @@ void snoopy_message_generateFromFormat (
     }
 
     free(dataSourceMsg);
+    free(dataSourceTag);
 }
 
 
